@@ -958,7 +958,9 @@ fn trace_connection(seed: u64, s: u64, b: usize) -> Result<(Vec<String>, Value),
         match e.op.as_str() {
             "begin" => {
                 // the request being served: the next generated request with this id
-                let k = (q..reqs.len()).find(|&k| reqs[k].1 == e.id).ok_or_else(|| format!("handler invoked for request id {} which no remaining request carries", e.id))?;
+                // (if the Debug rendering no longer shows a request id - id 0 - fall back to the next remaining request of that role)
+                let k = if e.id == 0 { (q..reqs.len()).find(|&k| reqs[k].2 == e.role).or(if q < reqs.len() { Some(q) } else { None }) } else { (q..reqs.len()).find(|&k| reqs[k].1 == e.id) }
+                    .ok_or_else(|| format!("handler invoked for request id {} which no remaining request carries", e.id))?;
                 let (off, id, _) = reqs[k]; q = k + 1; own = u32::from(id); n = id as usize; loc.cursor = loc.cursor.max(off as u64); last_fill.clear();
             },
             "read" if e.ok && e.n > 0 => { got = loc.locate(&e.bytes, own, e.active).map_err(|x| format!("handler read: {x}"))?; if let Some(l) = got.last() { loc.cursor = l.1; } last_fill.clear(); },
